@@ -33,6 +33,8 @@ def lisp_eval(src, ns_name="verif.scratch", opts=None):
     pipeline (compile_and_exec_form) in namespace `ns_name`; returns the last value."""
     ns = _get_ns(ns_name)
     last = None
+    if isinstance(opts, dict):  # compiler options are a Lisp map keyed by keywords
+        opts = lmap.map({(kw.keyword(k) if isinstance(k, str) else k): v for k, v in opts.items()})
     with rt.ns_bindings(ns_name):
         ctx = cc.CompilerContext("<verif>", opts=opts)
         for form in rd.read_str(src):
